@@ -131,11 +131,6 @@ func TestVerifC19(t *testing.T) {
 		// raw mode (no parsing, files are numbered by arrival): overlapping uploads of one track, and of two tracks
 		{name: "raw-mode-same-track", cfg: &Config{Channels: []ChannelConfig{{Name: "ch1", ReceiveNrRawSegments: 10}}}, threads: [][]c19Upload{{up("ch1", v, "1")}, {up("ch1", v, "2")}}},
 		{name: "raw-mode-two-tracks", cfg: &Config{Channels: []ChannelConfig{{Name: "ch1", ReceiveNrRawSegments: 10}}}, threads: [][]c19Upload{{up("ch1", v, "1"), up("ch1", v, "2")}, {up("ch1", a, "1")}}},
-		// the audio track runs ahead on two connections while the video track's second segment makes the channel fix its
-		// numbering (the bundled stream needs the receiver's number/time shift): an upload that began before that decision
-		// is reported after it
-		{name: "audio-ahead-across-start", stall: true, prior: []c19Upload{up("ch1", v, "init"), up("ch1", a, "init"), up("ch1", v, "0"), up("ch1", a, "0")},
-			threads: [][]c19Upload{{up("ch1", a, "2")}, {up("ch1", v, "1")}, {up("ch1", a, "1")}}},
 		{name: "media-of-two-tracks", prior: []c19Upload{up("ch1", v, "init"), up("ch1", a, "init")}, threads: [][]c19Upload{{up("ch1", v, "0"), up("ch1", v, "1")}, {up("ch1", a, "0"), up("ch1", a, "1")}}},
 	}
 	bound := 2
@@ -228,6 +223,9 @@ func TestVerifC19(t *testing.T) {
 	}
 	for si, sc := range scenarios {
 		sc := sc
+		if only := os.Getenv("VERIF_C19_ONLY"); only != "" && sc.name != only { // debugging aid: one scenario with the whole budget
+			continue
+		}
 		if nsh > 1 && sh%nScen != si {
 			continue
 		}
